@@ -3115,7 +3115,7 @@ func (lbc *LoadBalancerController) getEndpointsForPortFromEndpointSlices(endpoin
 	var err error
 
 	for _, port := range svc.Spec.Ports {
-		if (backendPort.Name == "" && port.Port == backendPort.Number) || port.Name == backendPort.Name {
+		if (backendPort.Name == "" && port.Port == backendPort.Number) || (backendPort.Name != "" && port.Name == backendPort.Name) {
 			targetPort, err = lbc.getTargetPort(port, svc)
 			if err != nil {
 				return nil, fmt.Errorf("error determining target port for port %v in Ingress: %w", backendPort, err)
